@@ -1147,7 +1147,7 @@ class Interp:
         ordinal = self.loop_ordinal(env, node)
         spec = self.loop_specs.get((env.func.fullname if env.func else '', ordinal))
         if spec is not None:
-            return spec(self, node, env)
+            return self._run_loop_spec(spec, node, env)
         n = 0
         while True:
             if not self.decide(self.eval(node.test, env)):
@@ -1166,11 +1166,19 @@ class Interp:
 
     MAX_UNROLL = 400
 
+    def _run_loop_spec(self, spec, node, env):
+        """A loop contract executes the loop body itself; a `continue` / `break` of the analysed code that the contract does not handle
+        ends that iteration / the loop - it must never leave the loop statement (it would surface as an internal error of the checker)."""
+        try:
+            return spec(self, node, env)
+        except (ContinueEx, BreakEx):
+            return None
+
     def st_For(self, node, env, skip_spec=False):
         ordinal = self.loop_ordinal(env, node)
         spec = self.loop_specs.get((env.func.fullname if env.func else '', ordinal))
         if spec is not None and not skip_spec:
-            return spec(self, node, env)
+            return self._run_loop_spec(spec, node, env)
         it = self.eval(node.iter, env)
         items = self.iterate(it, loop=(env, ordinal))
         for v in items:
